@@ -19,6 +19,7 @@ Definition K_DLOG_ED : N := 4.      (* 64 bytes: ed25519 dlog proof (two canonic
 Definition K_BLS_PROOF : N := 5.    (* 64 bytes: aggregate_sig::Proof (two BLS12-381 scalars) *)
 Definition K_UTF8 : N := 6.         (* any length: valid UTF-8 *)
 Definition K_CRED_ID : N := 7.      (* 48 bytes: credential registration id (G1 point) *)
+Definition K_G1 : N := 9.           (* 48 bytes: point of the anonymity-revoker curve (BLS12-381 G1), canonical encoding *)
 Definition K_ELGAMAL_PK : N := 8.   (* 96 bytes: elgamal public key of an anonymity revoker (generator and key, two G1 points) *)
 
 (** constants.rs *)
